@@ -211,6 +211,16 @@ class SymDiGraph(SymGraphBase):
         nb = SSet.of([nbunch]) if not isinstance(nbunch, (SSet, SList, set, frozenset, list, tuple)) else SSet.of(nbunch)
         return SSet({k: band(g, nb.mem(k[0])) for k, g in self.edge.items()})
 
+    def out_degree(self, v):
+        from .sym import SymCount
+
+        return SymCount([self.e(v, w) for w in self.U if w != v])
+
+    def in_degree(self, v):
+        from .sym import SymCount
+
+        return SymCount([self.e(u, v) for u in self.U if u != v])
+
     def has_predecessor(self, v, u):
         return wrap(self.e(u, v))
 
